@@ -603,7 +603,10 @@ Error BaseBuilder::run_passes() {
     return Error::kOk;
   }
 
+  // The handler is only replaced temporarily - remember whether it was emitter's own handler or the handler of
+  // the attached CodeHolder, so the emitter doesn't end up owning the latter after the passes have run.
   ErrorHandler* prev = error_handler();
+  bool prev_is_own = has_own_error_handler();
   PostponedErrorHandler postponed;
 
   Error err = Error::kOk;
@@ -617,7 +620,13 @@ Error BaseBuilder::run_passes() {
     }
   }
   _pass_arena.reset();
-  set_error_handler(prev);
+
+  if (prev_is_own) {
+    set_error_handler(prev);
+  }
+  else {
+    reset_error_handler();
+  }
 
   if (ASMJIT_UNLIKELY(err != Error::kOk)) {
     return report_error(err, !postponed._message.is_empty() ? postponed._message.data() : nullptr);
